@@ -8,6 +8,115 @@ use crate::world::{
 };
 use std::net::{IpAddr, Ipv4Addr, Ipv6Addr, SocketAddr};
 
+/// The fields the C04 sweep overwrites: (name, width in octets).
+pub const MUT_FIELDS: &[(&str, u8)] = &[
+    ("outer-ihl", 1),
+    ("icmp-type", 1),
+    ("icmp-code", 1),
+    ("rfc4884-length", 1),
+    ("nested-version-ihl", 1),
+    ("nested-protocol", 1),
+    ("nested-total-length", 2),
+    ("l4-length-or-offset", 2),
+    ("l4-byte0", 1),
+    ("ext-version", 1),
+    ("ext-object-length", 2),
+    ("ext-object-class", 1),
+    ("ext-object-ctype", 1),
+    ("ext-second-object-length", 2),
+    ("outer-total-length", 2),
+    ("outer-protocol", 1),
+];
+
+/// Values tried for 16-bit fields.
+pub const MUT_VALUES_16: &[u16] = &[
+    0, 1, 3, 4, 5, 7, 8, 9, 12, 19, 20, 21, 27, 28, 29, 39, 40, 41, 47, 48, 127, 128, 129, 255, 256, 257, 511, 512, 1023, 1024, 1025, 0x7fff, 0x8000, 0xfffe, 0xffff,
+];
+
+/// Overwrite one field of a delivered datagram. `icmp_off`: offset of the ICMP message;
+/// `quote_off`: offset of the quoted datagram; `ext_off`: offset of the extension structure.
+pub fn apply_mutation(bytes: &mut Vec<u8>, v6: bool, icmp_off: usize, quote_off: usize, ext_off: Option<usize>, m: crate::scenario::Mutation) {
+    let nested_l4 = quote_off + if v6 { 40 } else { 20 };
+    let put8 = |b: &mut Vec<u8>, off: usize, v: u32| {
+        if off < b.len() {
+            b[off] = v as u8;
+        }
+    };
+    let put16 = |b: &mut Vec<u8>, off: usize, v: u32| {
+        if off + 1 < b.len() {
+            b[off..off + 2].copy_from_slice(&(v as u16).to_be_bytes());
+        }
+    };
+    match m.field {
+        0 => {
+            if !v6 {
+                let hi = bytes[0] & 0xf0;
+                put8(bytes, 0, u32::from(hi) | (m.value & 0x0f));
+            }
+        }
+        1 => put8(bytes, icmp_off, m.value),
+        2 => put8(bytes, icmp_off + 1, m.value),
+        3 => put8(bytes, icmp_off + if v6 { 4 } else { 5 }, m.value),
+        4 => put8(bytes, quote_off, m.value),
+        5 => put8(bytes, quote_off + if v6 { 6 } else { 9 }, m.value),
+        6 => put16(bytes, quote_off + if v6 { 4 } else { 2 }, m.value),
+        7 => {
+            // udp length / tcp data offset+flags / icmp id
+            let proto = bytes.get(quote_off + if v6 { 6 } else { 9 }).copied().unwrap_or(0);
+            if proto == wire::PROTO_TCP {
+                put16(bytes, nested_l4 + 12, m.value);
+            } else {
+                put16(bytes, nested_l4 + 4, m.value);
+            }
+        }
+        8 => put8(bytes, nested_l4, m.value),
+        9 => {
+            if let Some(e) = ext_off {
+                put8(bytes, e, m.value);
+            }
+        }
+        10 => {
+            if let Some(e) = ext_off {
+                put16(bytes, e + 4, m.value);
+            }
+        }
+        11 => {
+            if let Some(e) = ext_off {
+                put8(bytes, e + 6, m.value);
+            }
+        }
+        12 => {
+            if let Some(e) = ext_off {
+                put8(bytes, e + 7, m.value);
+            }
+        }
+        13 => {
+            if let Some(e) = ext_off {
+                // the object after the first one (first object length as encoded)
+                let first = usize::from(u16::from_be_bytes([
+                    bytes.get(e + 4).copied().unwrap_or(0),
+                    bytes.get(e + 5).copied().unwrap_or(0),
+                ]));
+                put16(bytes, e + 4 + first, m.value);
+            }
+        }
+        14 => {
+            if !v6 {
+                put16(bytes, 2, m.value);
+            }
+        }
+        15 => {
+            if !v6 {
+                put8(bytes, 9, m.value);
+            }
+        }
+        _ => {}
+    }
+    if let Some(t) = m.trunc {
+        bytes.truncate(usize::from(t));
+    }
+}
+
 /// Maximum RFC 4884 original-datagram size expressible for ICMPv4 (255 words).
 const MAX_4884_V4: usize = 255 * 4;
 
@@ -221,6 +330,8 @@ impl World {
                     note: "tcp",
                     kept: None,
                     replay_of_wire: None,
+                    dgram_len: 0,
+                    rewritten: (false, false),
                 });
                 self.socks[sock].tcp = if t.tcp_open {
                     TcpState::Established { at: t_arrive, resp: rid }
@@ -326,10 +437,28 @@ impl World {
         if built.exts.is_some() {
             self.counters.add("reach.extension_emitted", 1);
         }
+        let mut built = built;
+        let mut class = RespClass::Genuine;
+        if let Some(m) = self.sc.mutation {
+            apply_mutation(&mut built.bytes, built.v6, built.icmp_off, built.quote_off, built.ext_off, m);
+            class = RespClass::Corrupt;
+            self.counters.add("fault.corrupt.sweep", 1);
+        } else if self.sc.inject.corrupt_pm > 0 && self.tape.chance(self.sc.inject.corrupt_pm) {
+            class = RespClass::Corrupt;
+            self.corrupt_randomly(&mut built);
+        }
+        let rewritten = {
+            let orig = &self.wires[wire_id].bytes;
+            let v6 = dg[0] >> 4 == 6;
+            let (a0, a1, l4) = if v6 { (8, 24, 40) } else { (12, 16, usize::from(dg[0] & 0x0f) * 4) };
+            let addr = orig.len() >= a1 && dg.len() >= a1 && orig[a0..a1] != dg[a0..a1];
+            let port = orig.len() >= l4 + 2 && dg.len() >= l4 + 2 && orig[l4..l4 + 2] != dg[l4..l4 + 2];
+            (addr, port)
+        };
         let rec = RespRec {
             id: 0,
-            wire_id: Some(wire_id),
-            class: RespClass::Genuine,
+            wire_id: if class == RespClass::Genuine { Some(wire_id) } else { None },
+            class,
             kind,
             code,
             responder: from,
@@ -345,6 +474,8 @@ impl World {
             note: "icmp-error",
             kept: None,
             replay_of_wire: None,
+                    dgram_len: 0,
+                    rewritten,
         };
         let rid = self.deliver(rec);
         let dup = duplicate || (self.sc.net.dup_pm > 0 && self.tape.chance(self.sc.net.dup_pm));
@@ -357,6 +488,49 @@ impl World {
             copy.handed = None;
             copy.bytes = Some(built.bytes);
             self.deliver(copy);
+        }
+    }
+
+    /// Random in-flight corruption of a built response (C04 live mode).
+    fn corrupt_randomly(&mut self, built: &mut BuiltError) {
+        let n = built.bytes.len();
+        if n == 0 {
+            return;
+        }
+        match self.tape.pick(4) {
+            0 => {
+                let flips = 1 + self.tape.draw(4);
+                for _ in 0..flips {
+                    let bit = self.tape.draw((n * 8) as u32) as usize;
+                    built.bytes[bit / 8] ^= 1 << (bit % 8);
+                }
+                self.counters.add("fault.corrupt.bitflip", 1);
+            }
+            1 => {
+                let keep = self.tape.draw(n as u32 + 1) as usize;
+                built.bytes.truncate(keep);
+                self.counters.add("fault.corrupt.truncate", 1);
+            }
+            2 => {
+                let field = self.tape.draw(MUT_FIELDS.len() as u32) as u8;
+                let value = if MUT_FIELDS[field as usize].1 == 1 {
+                    self.tape.draw(256)
+                } else {
+                    u32::from(MUT_VALUES_16[self.tape.pick(MUT_VALUES_16.len())])
+                };
+                let trunc = if self.tape.chance(300) { Some(self.tape.draw(n as u32 + 1) as u16) } else { None };
+                apply_mutation(&mut built.bytes, built.v6, built.icmp_off, built.quote_off, built.ext_off, crate::scenario::Mutation { field, value, trunc });
+                self.counters.add("fault.corrupt.field", 1);
+            }
+            _ => {
+                // garbage tail / oversized datagram
+                let extra = self.tape.skewed(1200) as usize;
+                for _ in 0..extra {
+                    let b = self.tape.draw(256) as u8;
+                    built.bytes.push(b);
+                }
+                self.counters.add("fault.corrupt.oversize", 1);
+            }
         }
     }
 
@@ -398,6 +572,8 @@ impl World {
             note: "echo-reply",
             kept: None,
             replay_of_wire: None,
+                    dgram_len: 0,
+                    rewritten: (false, false),
         };
         let rid = self.deliver(rec);
         if self.sc.net.dup_pm > 0 && self.tape.chance(self.sc.net.dup_pm) {
@@ -460,6 +636,9 @@ pub struct BuiltError {
     /// Offset of the quoted datagram inside `bytes`.
     pub quote_off: usize,
     pub quote_len: usize,
+    /// Offset of the ICMP message / the extension structure inside `bytes`.
+    pub icmp_off: usize,
+    pub ext_off: Option<usize>,
 }
 
 /// Build the datagram a responder at `from` sends to `host` for the offending datagram `dg`.
@@ -528,6 +707,13 @@ pub fn build_error(
         (true, _) => (1, 4),
     };
     let _ = has_ext_struct;
+    // where the extension structure starts, relative to the quotation
+    let unit = if v6 { 8 } else { 4 };
+    let ext_rel = match layout {
+        ErrorLayout::Compliant(_) => Some(quote_len.max(128).div_ceil(unit) * unit),
+        ErrorLayout::Legacy128(_) => Some(128),
+        _ => None,
+    };
     match (from, host) {
         (IpAddr::V4(f), IpAddr::V4(h)) => {
             let m = wire::build_icmpv4_error(icmp_type, code, &q, layout);
@@ -544,6 +730,8 @@ pub fn build_error(
                 quoted_udp_csum,
                 quote_off: 28,
                 quote_len,
+                icmp_off: 20,
+                ext_off: ext_rel.map(|x| 28 + x),
             }
         }
         (IpAddr::V6(f), IpAddr::V6(h)) => {
@@ -560,6 +748,8 @@ pub fn build_error(
                 quoted_udp_csum,
                 quote_off: 8,
                 quote_len,
+                icmp_off: 0,
+                ext_off: ext_rel.map(|x| 8 + x),
             }
         }
         _ => BuiltError {
@@ -573,6 +763,8 @@ pub fn build_error(
             quoted_udp_csum: None,
             quote_off: 0,
             quote_len: 0,
+            icmp_off: 0,
+            ext_off: None,
         },
     }
 }
